@@ -140,6 +140,12 @@ func (e *Env) tr(x ast.Expr) *Term {
 	case *ast.SelectorExpr:
 		// pkg-qualified external globals (os.Stdout) or field selection through a pointer
 		if id, ok := x.X.(*ast.Ident); ok {
+			if id.Name == "G" { // G.name: the package-level variable, even when a local of the same name shadows it
+				if gv := e.g.mainGlobal(x.Sel.Name); gv != nil {
+					return e.st.Get(e.g, "G:"+x.Sel.Name)
+				}
+				e.fail("no package-level variable %s", x.Sel.Name)
+			}
 			if _, bound := e.lookup(id.Name); !bound {
 				name := id.Name + "." + x.Sel.Name
 				return e.g.extGlobal(name)
@@ -389,12 +395,48 @@ func (e *Env) call(x *ast.CallExpr) *Term {
 		a := e.tr(x.Args[0])
 		es := e.elemSort(a)
 		return Select(e.st.Get(e.g, "Arr:"+string(es)), mk("sbase", SInt, a))
+	case "selems", "velems", "ielems":
+		a := e.trS(x.Args[0], SSlice)
+		es := map[string]Sort{"selems": SStr, "velems": SVal, "ielems": SInt}[name]
+		return Select(e.st.Get(e.g, "Arr:"+string(es)), mk("sbase", SInt, a))
 	case "base":
 		return mk("sbase", SInt, e.trS(x.Args[0], SSlice))
 	case "off":
 		return mk("soff", SInt, e.trS(x.Args[0], SSlice))
 	case "mkslice":
 		return mk("mkslice", SSlice, e.tr(x.Args[0]), e.tr(x.Args[1]), e.tr(x.Args[2]), e.tr(x.Args[3]))
+	case "field":
+		// field(ref, "pkg.Type", "Field"): a struct field read through a reference of any static type
+		ref := e.trS(x.Args[0], SInt)
+		tn := e.strArg(x.Args[1])
+		fnm := e.strArg(x.Args[2])
+		ty := e.g.lookupType(tn)
+		if ty == nil {
+			e.fail("field(): unknown type %s", tn)
+		}
+		ref = e.g.withType(ref, types.NewPointer(ty))
+		return e.field(ref, fnm)
+	case "typeid":
+		tn := e.strArg(x.Args[0])
+		ptr := strings.HasPrefix(tn, "*")
+		ty := e.g.lookupType(strings.TrimPrefix(tn, "*"))
+		if ty == nil {
+			e.fail("typeid(): unknown type %s", tn)
+		}
+		if ptr {
+			ty = types.NewPointer(ty)
+		}
+		return IntLit(int64(e.g.typeID(ty)))
+	case "unchangedBelow":
+		// unchangedBelow("Arr:Str"): every cell of the heap array that existed at function entry keeps its value
+		comp := e.strArg(x.Args[0])
+		if e.old == nil {
+			e.fail("unchangedBelow needs an entry state")
+		}
+		cur := e.st.Get(e.g, comp)
+		was := e.old.st.Get(e.g, comp)
+		r := Const("?r", SInt)
+		return Forall([]*Term{r}, Implies(Le(r, e.old.st.Get(e.g, "heapTop")), Eq(Select(cur, r), Select(was, r))), Select(cur, r))
 	case "distinct":
 		var args []*Term
 		for _, a := range x.Args {
@@ -443,6 +485,15 @@ func (e *Env) call(x *ast.CallExpr) *Term {
 	return nil
 }
 
+func (e *Env) strArg(x ast.Expr) string {
+	bl, ok := x.(*ast.BasicLit)
+	if !ok || bl.Kind != token.STRING {
+		e.fail("expected a string literal")
+	}
+	s, _ := strconv.Unquote(bl.Value)
+	return s
+}
+
 func (e *Env) trS(x ast.Expr, s Sort) *Term {
 	t := e.tr(x)
 	if t.Sort == "Nil" {
@@ -465,6 +516,7 @@ var builtinFuns = map[string]*FunDecl{
 	"mkbytes": {Name: "mkbytes", Args: []Sort{ArrSort(SInt, SInt), SInt, SInt}, Ret: SBytes},
 	"bstr":    {Name: "bstr", Args: []Sort{SBytes}, Ret: SStr},
 	"bitand":  {Name: "bitand", Args: []Sort{SInt, SInt}, Ret: SInt},
+	"dyntype": {Name: "dyntype", Args: []Sort{SInt}, Ret: SInt},
 }
 
 // smtName sanitises a Go-ish name for use as an SMT symbol.
